@@ -17,8 +17,8 @@ import (
 func init() {
 	Register(&Prop{
 		ID:   "C06",
-		Expl: "Decides, over the four state tables extracted from swap/*.go and the SSA effect summaries of every action, that (R1) no state reachable by ANY event sequence from the success target of the claim-payment state has a key-disclosing action, and the only terminal state reachable is the preimage-claimed one; (R2) CoopCloseMessage.Privkey is only written inside actions used by taker tables, or in helpers/closures all of whose production callers are (transitively) such actions; (R3) the pay state and its successors are not FailOnrecover and, on every static call chain from a table action to a call that creates a claim payment, some call of the chain is dominated by a guard on the persisted preimage (written directly, with len(), through a getter or a predicate helper) whose other branch only succeeds without consulting outside services, so a restart between the post-payment store write and the next state does not re-pay and fall into the failure edge; (R4) that every action which arms a negotiation timer (directly or through a helper) is run only by first states of the tables, and whether the timers are ever cancelled (so OnTimeout must be safe in every later state). The quantifier is over all states, edges and call sites, i.e. over all histories of accepted events.",
-		NotD: "Whether an HTLC is still in flight when the payment call returns an error (run-time state of the Lightning node); timing.",
+		Expl: "Decides, over the four state tables extracted from swap/*.go and the SSA effect summaries of every action, that (R1) no state reachable by ANY event sequence from the success target of the claim-payment state has a key-disclosing action, and the only terminal state reachable is the preimage-claimed one; (R2) CoopCloseMessage.Privkey is only written inside actions used by taker tables, or in helpers/closures all of whose production callers are (transitively) such actions; (R3) the pay state and its successors are not FailOnrecover and, on every static call chain from a table action to a call that creates a claim payment, some call of the chain is dominated by a guard on the persisted preimage (written directly, with len(), through a getter or a predicate helper) whose other branch only succeeds without consulting outside services, so a restart between the post-payment store write and the next state does not re-pay and fall into the failure edge; (R4) that every action which arms a negotiation timer (directly or through a helper) is run only by first states of the tables, and whether the timers are ever cancelled (so OnTimeout must be safe in every later state). (R5) that no state at or after the pay state is FailOnrecover with an Event_ActionFailed edge from which a disclosing action is reachable (Recover injects that event although the payment may already be made); (R6) that every payment RPC reached from the LightningClient implementations of RebalancePayment, PayInvoiceViaChannel and RecoverClaimPayment (lnd: router SendPaymentV2 / TrackPaymentV2 and the other payment streams; CLN: waitsendpay) is not bounded by a deadline of the adapter's own making - the context comes from the client's lifetime context (constructor parameter, Background, WithCancel/WithValue of those), never from context.WithTimeout/WithDeadline, directly or through a helper, and the waitsendpay timeout is the constant 0 - because the pay action reads any error of these calls as 'not paid' and ends in coop_close with the key. The quantifier is over all states, edges and call sites, i.e. over all histories of accepted events.",
+		NotD: "Whether an HTLC is still in flight when the payment call returns an error for reasons outside the adapter (connection loss, stream.Recv failing, the node shutting down - run-time state of the Lightning node): R6 decides only deadlines the adapter imposes on itself; timing.",
 		Run:  runC06,
 	})
 }
@@ -28,6 +28,8 @@ func runC06(c *an.Check) {
 	c.Rule("C06.R2", "stores to CoopCloseMessage.Privkey occur only in actions of taker tables (or in helpers whose every production caller is such an action)")
 	c.Rule("C06.R3", "pay state and its successors are not FailOnrecover; every claim-payment call is dominated (in the action or at a call leading to it) by the `ClaimPreimage == \"\"` guard whose other edge only succeeds")
 	c.Rule("C06.R4", "negotiation timers are armed only in the first action of a table (info: whether toCancel is ever invoked)")
+	c.Rule("C06.R5", "a FailOnrecover state at or after the claim payment must not lead, through the Event_ActionFailed that Recover injects, to a key-disclosing action")
+	c.Rule("C06.R6", "the payment RPCs behind RebalancePayment / PayInvoiceViaChannel / RecoverClaimPayment run without a self-imposed deadline (client lifetime context; CLN waitsendpay timeout 0): their error means 'not paid' to the pay action")
 	if !needEffects(c, fxPay, fxPreimageSpend, fxAddTimeout) {
 		return
 	}
@@ -97,6 +99,41 @@ func runC06(c *an.Check) {
 				if reach[s] && !t.T.States[s].Terminal() {
 					c.Decide(!t.T.States[s].FailOnRecover, "C06.R3", t.key(s)+" FailOnrecover", t.pos(c, s), "post-payment state is not FailOnrecover", "post-payment state is FailOnrecover")
 				}
+			}
+			// R5: Recover() answers a FailOnrecover state with Event_ActionFailed. The
+			// record is written after every action, so a swap found in the pay state (or
+			// a later one) may already have paid: the injected failure must not lead to
+			// a disclosing action.
+			for _, s := range t.T.Order {
+				if s != p && !reach[s] {
+					continue
+				}
+				e := t.T.States[s]
+				if e.Terminal() {
+					continue
+				}
+				cons := t.key(s) + " recover-after-payment"
+				if !e.FailOnRecover {
+					if s == p {
+						c.OK("C06.R5", cons, t.pos(c, s), "the pay state is re-executed on recovery (its action is guarded by the persisted preimage), not failed")
+					}
+					continue
+				}
+				nx, ok := e.Events[evFailed]
+				if !ok {
+					c.OK("C06.R5", cons, t.pos(c, s), "FailOnrecover state without an "+evFailed+" edge: nothing is disclosed (that the swap is then stuck is C15.R6)")
+					continue
+				}
+				var leak []string
+				fr := t.T.Reach(nx)
+				for _, x := range t.T.Order {
+					if fr[x] && t.discloses(w, x, dis) {
+						leak = append(leak, x+" via "+strings.Join(t.T.FindPath(nx, x), " ; "))
+					}
+				}
+				c.Decide(len(leak) == 0, "C06.R5", cons, t.pos(c, s),
+					"the failure injected on recovery does not lead to a key-disclosing action",
+					"the state is FailOnrecover and the record is written after every action: a crash after the claim payment was made (or recorded) and before the next state is stored leaves the swap here; Recover() then injects "+evFailed+" -> "+nx+", from where a key-disclosing action is reachable ("+strings.Join(leak, " | ")+"): the key is sent in coop_close for an invoice that was paid")
 			}
 		}
 	}
@@ -292,6 +329,9 @@ func runC06(c *an.Check) {
 				"a timeout is armed by code that no action of a state table reaches synchronously: its provenance is not covered by the rule")
 		}
 	}
+	// R6: the adapters must not give up on a payment that is still outstanding
+	c06PaymentDeadlines(c)
+
 	// is toCancel ever invoked?
 	invoked := false
 	for _, fn := range prodFuncs(w) {
@@ -310,6 +350,334 @@ func sortedKeysOf(m map[string][]*ssa.Return) []string {
 		k[x] = true
 	}
 	return sortedKeys(k)
+}
+
+// ---- R6: no self-imposed deadline on payment RPCs -------------------------------------------
+
+// lnd RPCs that start or follow a payment (context is argument 0 of the invoke).
+var c06LndPaymentRPC = map[string]bool{
+	"SendPaymentV2": true, "TrackPaymentV2": true, "TrackPayments": true, "SendToRouteV2": true, "SendToRoute": true,
+	"SendPayment": true, "SendPaymentSync": true, "SendToRouteSync": true,
+}
+
+// CLN calls that wait for a payment, with the index (in Call.Args, receiver
+// first) of their timeout parameter.
+var c06ClnPaymentWait = map[string]int{
+	"func:(*github.com/elementsproject/glightning/glightning.Lightning).WaitSendPay":     2,
+	"func:(*github.com/elementsproject/glightning/glightning.Lightning).WaitSendPayPart": 2,
+}
+
+const (
+	c06CtxLifetime = iota
+	c06CtxDeadline
+	c06CtxUnknown
+)
+
+func c06PaymentDeadlines(c *an.Check) {
+	w := c.W
+	idx := c06BuildCallIdx(w)
+	pairs := 0
+	for _, meth := range []string{"RebalancePayment", "PayInvoiceViaChannel", "RecoverClaimPayment"} {
+		for _, fn := range implementers(w, "swap", "LightningClient", meth) {
+			if isDummy(w, fn) {
+				continue
+			}
+			name := w.FuncName(fn)
+			done := map[string]bool{}
+			for _, ef := range w.Summary(fn).Effects {
+				ci := ef.Info
+				call := ci.Instr
+				if _, isGo := call.(*ssa.Go); isGo {
+					continue
+				}
+				rpc := ""
+				ctxArg, timeoutArg := -1, -1
+				switch {
+				case ci.Iface != nil && c06LndPaymentRPC[ci.Method] && strings.Contains(ci.PkgPath, "lnd/lnrpc"):
+					rpc, ctxArg = ci.Iface.Obj().Name()+"."+ci.Method, 0
+				case ci.Static != nil:
+					if ti, ok := c06ClnPaymentWait[ci.Name]; ok {
+						rpc, timeoutArg = ci.Static.Name(), ti
+					}
+				}
+				if rpc == "" {
+					continue
+				}
+				cons := name + " payment RPC " + rpc
+				if !done[cons] {
+					done[cons] = true
+					pairs++
+				}
+				pos := w.Pos(call.Pos())
+				args := call.Common().Args
+				if timeoutArg >= 0 {
+					if timeoutArg >= len(args) {
+						c.Unknown("C06.R6", cons, pos, "unexpected argument list")
+						continue
+					}
+					chains := c06Chains(w, idx, fn, call, false)
+					vals := c06ArgValues(args[timeoutArg], chains)
+					verdict := c06CtxLifetime
+					detail := ""
+					for _, v := range vals {
+						if n, ok := an.ConstInt(v); ok {
+							if n != 0 {
+								verdict, detail = c06CtxDeadline, fmt.Sprintf("timeout %d s", n)
+							}
+						} else if verdict != c06CtxDeadline {
+							verdict, detail = c06CtxUnknown, "timeout "+w.Term(v)
+						}
+					}
+					switch verdict {
+					case c06CtxLifetime:
+						c.OK("C06.R6", cons, pos, "waits for the payment without a timeout (0 = until it is settled or failed)")
+					case c06CtxDeadline:
+						c.Bad("C06.R6", cons, pos, "the adapter waits for the payment with its own "+detail+": when it elapses the call returns an error while the HTLC is still outstanding; the pay action reads that as 'not paid' and its failure edge sends coop_close with the key")
+					default:
+						c.Unknown("C06.R6", cons, pos, "the timeout handed to the payment wait is not a constant ("+detail+")")
+					}
+					continue
+				}
+				if ctxArg >= len(args) {
+					c.Unknown("C06.R6", cons, pos, "unexpected argument list")
+					continue
+				}
+				chains := c06Chains(w, idx, fn, call, false)
+				verdict, why := c06CtxLifetime, ""
+				if len(chains) == 0 {
+					chains = [][]c06Step{{{call.Parent(), call}}}
+				}
+				for _, ch := range chains {
+					v, y := c06CtxOrigin(w, args[ctxArg], ch, 0, map[ssa.Value]bool{})
+					if v == c06CtxDeadline || (v == c06CtxUnknown && verdict == c06CtxLifetime) {
+						verdict, why = v, y
+					}
+				}
+				switch verdict {
+				case c06CtxLifetime:
+					c.OK("C06.R6", cons, pos, "the RPC runs under the client's lifetime context: it returns only when the payment is settled or failed, or the connection is lost")
+				case c06CtxDeadline:
+					c.Bad("C06.R6", cons, pos, "the payment RPC runs under a context with a deadline of the adapter's own making ("+why+"): lnd's payment timeout bounds path finding only, a held HTLC stays IN_FLIGHT; when the deadline expires the call returns an error while the payment is outstanding, the pay action reads that as 'not paid' and its failure edge sends coop_close with the key")
+				default:
+					c.Unknown("C06.R6", cons, pos, "the origin of the context handed to the payment RPC cannot be resolved ("+why+")")
+				}
+			}
+		}
+	}
+	c.AtLeast("C06.R6", "(LightningClient payment method, payment RPC) pairs analysed", pairs, 6)
+}
+
+// c06ArgValues resolves a value that may be a parameter of the functions on
+// the chains to the arguments passed at the calls above.
+func c06ArgValues(v ssa.Value, chains [][]c06Step) []ssa.Value {
+	if _, isPar := v.(*ssa.Parameter); !isPar || len(chains) == 0 {
+		return []ssa.Value{v}
+	}
+	var out []ssa.Value
+	for _, ch := range chains {
+		out = append(out, c06BindUp(v, ch))
+	}
+	return out
+}
+
+// c06BindUp follows parameter v of the last function of ch up the chain.
+func c06BindUp(v ssa.Value, ch []c06Step) ssa.Value {
+	up, _ := c06BindUpChain(v, ch)
+	return up
+}
+
+// c06BindUpChain follows parameter v of the last function of ch to the argument
+// passed by the caller (repeatedly); it returns the value and the chain that
+// ends in the function holding it.
+func c06BindUpChain(v ssa.Value, ch []c06Step) (ssa.Value, []c06Step) {
+	for len(ch) >= 2 {
+		p, ok := v.(*ssa.Parameter)
+		if !ok || p.Parent() != ch[len(ch)-1].Fn {
+			return v, ch
+		}
+		prev := ch[len(ch)-2]
+		if prev.Call == nil || prev.Call.Common().StaticCallee() != p.Parent() {
+			return v, ch
+		}
+		args := prev.Call.Common().Args
+		found := false
+		for i, q := range p.Parent().Params {
+			if q == p && i < len(args) {
+				v, found = args[i], true
+			}
+		}
+		if !found {
+			return v, ch
+		}
+		ch = ch[:len(ch)-1]
+	}
+	return v, ch
+}
+
+// c06CtxOrigin classifies where a context value comes from. ch is the call
+// chain whose last step lies in the function that holds v (used to bind
+// parameters to the arguments of the callers).
+func c06CtxOrigin(w *an.World, v ssa.Value, ch []c06Step, depth int, seen map[ssa.Value]bool) (int, string) {
+	if depth > 12 {
+		return c06CtxUnknown, "derivation too deep"
+	}
+	if seen[v] {
+		return c06CtxLifetime, ""
+	}
+	seen[v] = true
+	merge := func(vals []ssa.Value, chs [][]c06Step) (int, string) {
+		verdict, why := c06CtxLifetime, ""
+		for i, x := range vals {
+			v2, y := c06CtxOrigin(w, x, chs[i], depth+1, seen)
+			if v2 == c06CtxDeadline {
+				return v2, y
+			}
+			if v2 == c06CtxUnknown {
+				verdict, why = v2, y
+			}
+		}
+		return verdict, why
+	}
+	same := func(vals []ssa.Value) [][]c06Step {
+		out := make([][]c06Step, len(vals))
+		for i := range out {
+			out[i] = ch
+		}
+		return out
+	}
+	switch x := v.(type) {
+	case *ssa.ChangeInterface:
+		return c06CtxOrigin(w, x.X, ch, depth+1, seen)
+	case *ssa.ChangeType:
+		return c06CtxOrigin(w, x.X, ch, depth+1, seen)
+	case *ssa.MakeInterface:
+		return c06CtxOrigin(w, x.X, ch, depth+1, seen)
+	case *ssa.Phi:
+		return merge(x.Edges, same(x.Edges))
+	case *ssa.Extract:
+		if call, ok := x.Tuple.(*ssa.Call); ok && x.Index == 0 {
+			return c06CtxCall(w, call, ch, depth, seen)
+		}
+		return c06CtxUnknown, "tuple component " + w.Term(v)
+	case *ssa.Call:
+		return c06CtxCall(w, x, ch, depth, seen)
+	case *ssa.Parameter:
+		if up, rest := c06BindUpChain(x, ch); up != ssa.Value(x) {
+			return c06CtxOrigin(w, up, rest, depth+1, seen)
+		}
+		return c06CtxUnknown, "parameter " + x.Name() + " of " + w.FuncName(x.Parent())
+	case *ssa.FreeVar:
+		return c06CtxUnknown, "captured variable " + x.Name()
+	case *ssa.UnOp:
+		if x.Op == token.MUL {
+			switch a := x.X.(type) {
+			case *ssa.FieldAddr:
+				return c06CtxField(w, an.FieldName(a.X.Type(), a.Field), depth, seen)
+			case *ssa.Alloc:
+				var vals []ssa.Value
+				if a.Referrers() != nil {
+					for _, r := range *a.Referrers() {
+						if st, ok := r.(*ssa.Store); ok && st.Addr == a {
+							vals = append(vals, st.Val)
+						}
+					}
+				}
+				if len(vals) == 0 {
+					return c06CtxUnknown, "local never assigned"
+				}
+				return merge(vals, same(vals))
+			case *ssa.Global:
+				return c06CtxUnknown, "global " + a.Name()
+			}
+		}
+	case *ssa.Field:
+		return c06CtxField(w, an.FieldName(x.X.Type(), x.Field), depth, seen)
+	}
+	return c06CtxUnknown, w.Term(v)
+}
+
+// c06CtxCall: a context produced by a call.
+func c06CtxCall(w *an.World, call *ssa.Call, ch []c06Step, depth int, seen map[ssa.Value]bool) (int, string) {
+	ci := w.Info(call)
+	args := call.Common().Args
+	switch ci.Name {
+	case "func:context.Background", "func:context.TODO":
+		return c06CtxLifetime, ""
+	case "func:context.WithTimeout", "func:context.WithDeadline", "func:context.WithTimeoutCause", "func:context.WithDeadlineCause":
+		return c06CtxDeadline, strings.TrimPrefix(ci.Name, "func:") + " at " + w.Pos(call.Pos())
+	case "func:context.WithCancel", "func:context.WithCancelCause", "func:context.WithValue", "func:context.WithoutCancel":
+		if len(args) > 0 {
+			return c06CtxOrigin(w, args[0], ch, depth+1, seen)
+		}
+	}
+	if g := ci.Static; g != nil && w.InModule(g) && g.Blocks != nil {
+		// a helper that builds the context: its returned values, parameters bound to this call
+		sub := append(append([]c06Step{}, ch...), c06Step{})
+		sub[len(sub)-1] = c06Step{Fn: g}
+		// make the previous step the call itself so that parameters of g bind to its arguments
+		if len(sub) >= 2 {
+			sub[len(sub)-2] = c06Step{Fn: call.Parent(), Call: call}
+		}
+		verdict, why := c06CtxLifetime, ""
+		n := 0
+		for _, r := range an.Returns(g) {
+			for _, res := range r.Results {
+				if !c06IsContext(res.Type()) {
+					continue
+				}
+				n++
+				v2, y := c06CtxOrigin(w, res, sub, depth+1, seen)
+				if v2 == c06CtxDeadline {
+					return v2, y + " (through " + w.FuncName(g) + ")"
+				}
+				if v2 == c06CtxUnknown {
+					verdict, why = v2, y
+				}
+			}
+		}
+		if n > 0 {
+			return verdict, why
+		}
+	}
+	return c06CtxUnknown, "result of " + strings.TrimPrefix(ci.Name, "func:")
+}
+
+func c06IsContext(t types.Type) bool {
+	n, ok := t.(*types.Named)
+	return ok && n.Obj().Pkg() != nil && n.Obj().Pkg().Path() == "context" && n.Obj().Name() == "Context"
+}
+
+// c06CtxField: a context kept in a struct field is the lifetime context when
+// every production store to that field is one (constructor parameter,
+// Background, WithCancel of those …); a parameter of the storing function is
+// taken as the lifetime context handed to the constructor.
+func c06CtxField(w *an.World, key string, depth int, seen map[ssa.Value]bool) (int, string) {
+	writers := w.FieldWriters(key)
+	verdict, why := c06CtxLifetime, ""
+	n := 0
+	for _, st := range writers {
+		fn := st.Parent()
+		if an.IsTestSupport(w.FnRel(fn)) || isDummy(w, fn) {
+			continue
+		}
+		n++
+		if _, isPar := st.Val.(*ssa.Parameter); isPar {
+			continue // handed in by whoever constructs the client: its lifetime
+		}
+		v2, y := c06CtxOrigin(w, st.Val, []c06Step{{Fn: fn}}, depth+1, seen)
+		if v2 == c06CtxDeadline {
+			return v2, "field " + key + " is set from " + y
+		}
+		if v2 == c06CtxUnknown {
+			if _, isPar := st.Val.(*ssa.Parameter); !isPar {
+				verdict, why = v2, "field "+key+" set from "+y
+			}
+		}
+	}
+	if n == 0 {
+		return c06CtxUnknown, "field " + key + " is never assigned by production code"
+	}
+	return verdict, why
 }
 
 const (
